@@ -27,6 +27,7 @@ type served struct {
 	block   types.Block
 	state   consensus.State
 	rem     uint64
+	max     uint64 // the requester's Max (block requests)
 	ok      bool
 	err     bool
 }
@@ -122,7 +123,7 @@ func (l *liar) BlocksForHistory(history []types.BlockID, max uint64) ([]types.Bl
 	if l.mutBlocks != nil {
 		bs, rem, err = l.mutBlocks(history, bs, rem)
 	}
-	l.rec(served{kind: "bfh", hist: append([]types.BlockID(nil), history...), blocks: append([]types.Block(nil), bs...), rem: rem, err: err != nil})
+	l.rec(served{kind: "bfh", max: max, hist: append([]types.BlockID(nil), history...), blocks: append([]types.Block(nil), bs...), rem: rem, err: err != nil})
 	return bs, rem, err
 }
 
